@@ -797,7 +797,7 @@ def run(ctx: Ctx) -> None:
 
     # 2./3. exported universe -> real classes -> TLC
     accepted: list[dict] = []
-    universes = [(2, 3, 150, 200)] if quick else [(2, 3, 1500, 100000), (3, 3, 400, 100000)]
+    universes = [(2, 3, 50, 200)] if quick else [(2, 3, 1500, 100000), (3, 3, 400, 100000)]
     n_seq = 0
     for size, depth, budget, keylimit in universes:
         geoms, seqs = export_universe(ctx, size, depth, budget, keylimit)
